@@ -135,11 +135,13 @@ def append_case(rng):
     def tb():
         text = ""
         ts = []
+        # the two treebanks may be export files of different versions (3 / 4)
+        wopts = {"export_four": True} if (fmt == "export" and rng.random() < 0.5) else {}
         for i in range(rng.randint(1, 3)):
             t = small_tree(rng, disc=(fmt == "export"))
             t.data['sid'] = rng.randint(1, 50)
             s = io.StringIO()
-            getattr(treeoutput, fmt)(clone_sid(t), s)
+            getattr(treeoutput, fmt)(clone_sid(t), s, **wopts)
             text += s.getvalue()
             ts.append(t)
         return text, ts
@@ -151,7 +153,11 @@ def append_case(rng):
             p = sc.write("x", text)
             with quiet():
                 return [(t.data['sid'], proto.enc_tree(t, canon=True)) for t in getattr(treeinput, fmt)(p, "utf-8", quiet=True, **opts)]
-        ra, rb, rab = rd(a), rd(b), rd(a + b)
+        try:
+            ra, rb, rab = rd(a), rd(b), rd(a + b)
+        except Exception as e:
+            l = Line("pred", "P.C18.eq", ["a", "b"], note="reading a concatenation raised %s" % proto.err_name(e))
+            return Case("append:" + fmt, {"a": a, "b": b}, [l], nontrivial=True)
         if fmt == "brackets":
             rb = [(sid + len(ra), t) for sid, t in rb]
         lines.append(Line("pred", "P.C18.eq", [proto.enc_s(repr(rab)), proto.enc_s(repr(ra + rb))], note="read(A+B) vs read(A)+read(B)"))
